@@ -128,6 +128,28 @@ def level_formula(fn, side):
         """(lo, hi) of the password slice inside e, and e with the slice replaced by W."""
         import copy as _cp
         e = _cp.deepcopy(e)
+        # split spelling of one window: pw[a:c] as prefix and pw[c] as last letter  ==  W[:-1] and W[-1] with W = pw[a:c+1]
+        sl_ = [n for n in ast.walk(e) if isinstance(n, ast.Subscript) and U(n.value) == pw and isinstance(n.slice, ast.Slice)]
+        ix_ = [n for n in ast.walk(e) if isinstance(n, ast.Subscript) and U(n.value) == pw and not isinstance(n.slice, ast.Slice)]
+        if len(sl_) == 1 and len(ix_) == 1 and sl_[0].slice.upper is not None and sl_[0].slice.step is None:
+            c_ = lin(sl_[0].slice.upper, None, aa)
+            d_ = lin(ix_[0].slice, None, aa)
+            if c_ is not None and d_ is not None and c_ == d_:
+                whole = ast.Subscript(value=ast.Name(id=pw, ctx=ast.Load()),
+                                      slice=ast.Slice(lower=sl_[0].slice.lower,
+                                                      upper=ast.BinOp(left=sl_[0].slice.upper, op=ast.Add(), right=ast.Constant(value=1)), step=None),
+                                      ctx=ast.Load())
+
+                class RS(ast.NodeTransformer):
+                    def visit_Subscript(self, n):
+                        if n is sl_[0]:
+                            return ast.Subscript(value=whole, slice=ast.Slice(lower=None, upper=ast.UnaryOp(op=ast.USub(), operand=ast.Constant(value=1)), step=None), ctx=ast.Load())
+                        if n is ix_[0]:
+                            return ast.Subscript(value=whole, slice=ast.UnaryOp(op=ast.USub(), operand=ast.Constant(value=1)), ctx=ast.Load())
+                        self.generic_visit(n)
+                        return n
+                e = RS().visit(e)
+                ast.fix_missing_locations(e)
         found = []
 
         class R(ast.NodeTransformer):
@@ -145,7 +167,15 @@ def level_formula(fn, side):
                 self.generic_visit(n)
                 return n
         e2 = R().visit(e)
-        if not found or any(U(f) != U(found[0]) for f in found):
+        if not found:
+            # split spelling of one window: pw[a:c] used as prefix and pw[c] as last letter  ==  W[:-1], W[-1] with W = pw[a:c+1]
+            e = _cp.deepcopy(e)
+            sl_, ix_ = [], []
+            for n in ast.walk(e):
+                if isinstance(n, ast.Subscript) and U(n.value) == pw:
+                    (sl_ if isinstance(n.slice, ast.Slice) else ix_).append(n)
+            return None, None, None
+        if any(U(f) != U(found[0]) for f in found):
             return None, None, None
         sl = found[0].slice
         lo = lin(sl.lower, None, aa) if sl.lower is not None else Lin({}, 0)
